@@ -293,6 +293,10 @@ Proof.
 Qed.
 
 (* ---------------------------------------------------------------- SecretStr *)
+Theorem timedelta_registered_roundtrip_lemma c total :
+  td_valid total = true -> td_registered c (PStr (td_str total)) = TdOk total.
+Proof. intros H. unfold td_registered. rewrite (timedelta_roundtrip_lemma total H). reflexivity. Qed.
+
 Theorem secret_never_dumped_lemma : forall secret, secret_serializer secret = s_stars.
 Proof. reflexivity. Qed.
 
